@@ -85,6 +85,10 @@ F = {
     "dsd": {"decl": {"type": "dict_str_D", "default": {}}, "good": [{"k": {"u": 2}}], "bad": [{"k": {"u": "x"}}, {"k": 3}, {"k": {"zz": 1}}, [1]], "sub": ["k", "k.u", "k.zz"]},
     "fnc": {"decl": {"type": "opt_callable", "default": None}, "good": ["dsim.simtypes.double", "os.path.join"], "bad": BADCLASSP[:6] + [3]},
     "pr": {"decl": {"type": "opt_probe", "default": None}, "good": ["p:x"], "bad": ["bad", 3, [1]]},
+    "lpr": {"decl": {"type": "list_probe", "default": []}, "good": [["p:a", "p:b"], []], "bad": [["bad"], [3], "p:x", {"k": "p:a"}], "append": True},
+    "dpr": {"decl": {"type": "dict_str_probe", "default": {}}, "good": [{"k": "p:a"}], "bad": [{"k": "bad"}, {"k": 3}, ["p:a"]], "sub": ["k", "k.j"]},
+    "tpr": {"decl": {"type": "tuple_probe_int", "default": None}, "good": [["p:a", 2]], "bad": [["bad", 2], ["p:a", "x"], ["p:a"], 3]},
+    "pin": {"decl": {"type": "pos_int", "nargs": "+", "default": [1]}, "good": [[1, 2]], "bad": [["x"], [-1], 3], "nargs": True},
     "p": {"decl": {"type": "opt_path_fr", "default": None}, "good": ["good.yaml", "$W/run/good.yaml"], "bad": [], "path": True},
     "pl": {"decl": {"type": "list_path_fr", "default": [], "enable_path": True}, "good": [["good.yaml"], "list.txt"], "bad": [["nofile"], 3], "path": True, "append": True},
     "pfc": {"decl": {"type": "path_fc", "default": "newfile"}, "good": ["newfile2"], "bad": ["nodir/x"], "path": True},
@@ -528,7 +532,7 @@ def execute(sc, ctx):
                 core = [f for f in frames if f.startswith(("_core:", "_actions:", "_typehints:"))]
                 frame = "cyclic-alias" if cyc else (core[-1] if core else "?")
             elif exc == "RecursionError":
-                frame = "cyclic-alias" if cyc else "deep-recursion"
+                frame = "cyclic-alias" if cyc else "loop:" + "+".join(sorted(set(f for f in frames[-40:] if not f.startswith(("_deprecated:", "_namespace:")))))[:160]
             else:
                 frame = frames[-1] if frames else "?"
             ctx.violation(
